@@ -7,6 +7,7 @@ internal/cgen/builtin.go and the chunk driver). Helper lemmas: `Proof/Liveness*.
 -/
 import WuffsVerif.Proof.LivenessTop
 import WuffsVerif.Proof.ScratchProg
+import WuffsVerif.Proof.LivenessLockstep
 import WuffsVerif.Gen.C05_Tables
 
 namespace WuffsVerif.Props.C05
@@ -77,6 +78,51 @@ does exist for the saved one. -/
 example : resumables 2
     [.assign .eq (.var 0) ⟨false, false, []⟩, .ret true ⟨false, false, []⟩,
      .assign .eq (.var 1) ⟨false, false, [0]⟩, .assign .eq .none ⟨true, true, [1]⟩] = [0] := by decide +kernel
+
+/-! ## Saving only the resumable variables is the ideal semantics -/
+
+/-- The variables the generated C keeps across a suspension: `varResumables` (indexes at or
+above `n` are not variables of the function). -/
+def savedSet (n : Nat) (body : List Stmt) : Nat → Bool :=
+  fun v => decide (v ∈ resumables n body) || decide (n ≤ v)
+
+/-- **saved_equiv_ideal.** Over the abstract store semantics of `Model/LivenessRun.lean`: for
+every program `body` with `n` locals, every interpretation `cfg` of what the abstraction forgot
+(expression values — hence every input and every branch —, how often each coroutine call
+suspends, i.e. every suspension pattern), every fuel and every initial state, the run in which
+only `resumables n body` survive a suspension (all other locals restart at 0, as the generated
+C's re-declared locals do) and the ideal run (all locals persist) leave the body the same way,
+with the same events, the same log of computed values, and stores that agree on every saved
+variable. -/
+theorem saved_equiv_ideal (n : Nat) (body : List Stmt) (cfg : Cfg) (fuel : Nat) (st0 : RState) :
+    let rS := run (savedSet n body) cfg fuel (Task.block body) st0
+    let rI := run allSaved cfg fuel (Task.block body) st0
+    rI.out = rS.out ∧ rI.evs = rS.evs ∧ rI.st.log = rS.st.log ∧ rI.st.t = rS.st.t ∧
+      ∀ v, savedSet n body v = true → rI.st.store v = rS.st.store v := by
+  intro rS rI
+  have hpath : blockPaths body rS.evs rS.out := run_path (savedSet n body) cfg fuel (Task.block body) st0
+  have hnv : NoViol (savedSet n body) (fun _ => false) rS.evs := by
+    intro v hv
+    simp only [savedSet, Bool.or_eq_false_iff, decide_eq_false_iff_not, Nat.not_le] at hv
+    exact liveness_sound_resumables n body v hv.2 hv.1 rS.evs rS.out hpath
+  have hsim := run_lockstep (savedSet n body) cfg fuel (Task.block body) (fun _ => false) st0 st0
+    ⟨rfl, rfl, fun _ _ => rfl⟩ hnv
+  exact ⟨hsim.out, hsim.evs, hsim.st.log, hsim.st.t, fun v hv => hsim.st.agree v (Or.inl hv)⟩
+
+/-- `x = …; yield; y = f(x); write_u8?(y)`, all calls suspending once -/
+def exBody : List Stmt := [.assign .eq (.var 0) ⟨false, false, []⟩, .ret true ⟨false, false, []⟩,
+  .assign .eq (.var 1) ⟨false, false, [0]⟩, .assign .eq .none ⟨true, true, [1]⟩]
+def exCfg : Cfg := ⟨fun _ t vs => t + 7 + vs.sum, fun _ => 1, fun a b => a + b⟩
+
+/-- non-vacuity: the suspensions really happen, the non-saved variable (index 1, never live
+across a suspension) is really reset in the saved run and not in the ideal run, and the logs of
+the two runs are the same non-empty list. -/
+example :
+    (run (savedSet 2 exBody) exCfg 10 (Task.block exBody) ⟨fun _ => 0, 0, []⟩).st.log = [7, 8, 16, 26] ∧
+    (run allSaved exCfg 10 (Task.block exBody) ⟨fun _ => 0, 0, []⟩).st.log = [7, 8, 16, 26] ∧
+    (run (savedSet 2 exBody) exCfg 10 (Task.block exBody) ⟨fun _ => 0, 0, []⟩).st.store 1 = 0 ∧
+    (run allSaved exCfg 10 (Task.block exBody) ⟨fun _ => 0, 0, []⟩).st.store 1 = 16 := by
+  decide +kernel
 
 /-! ## The scratch-word machines (builtin.go) -/
 
